@@ -129,3 +129,37 @@ Proof. exact msq_antitone. Qed.
 
 Example C07_sdevice_example : 0 < sp_eff ex_q <= 1 /\ 0 <= sp_sus ex_q /\ 0 <= sp_c2 ex_q <= sp_c1 ex_q /\ 0 <= sp_c3 ex_q.
 Proof. exact example_lossy_params. Qed.
+
+(* ---- tie T: the parameter hypotheses above follow from the validators regenerated from /repo's setters (Gen/Validators.v) ---- *)
+From DK.Gen Require Import Validators.
+From DK.Model Require Import PyVal.
+From DK.Proofs Require Import C07Validators.
+
+Theorem C07_idevice2_under_its_validators : forall n b cb pl ph p, List.length b = n ->
+  (forall i, (i < n)%nat -> lo b i <= hi b i) ->
+  (IDevice2_validate_param_accepts (A:=R) n pl = true /\ IDevice2_p_h_accepts (A:=R) n pl ph = true) \/
+  (IDevice2_validate_param_accepts (A:=R) n ph = true /\ IDevice2_p_l_accepts (A:=R) n ph pl = true) ->
+  convex_on (in_box_R b) (fun s => leaf_cost (Build_leafdev n b cb (KI2 pl ph)) s p).
+Proof. exact convex_idevice2_validated. Qed.
+
+Theorem C07_cdevice2_validator_orders_slopes : forall n pl ph,
+  CDevice2_p_h_accepts (A:=R) n (PS pl) (PS ph) = true \/ CDevice2_p_l_accepts (A:=R) n (PS ph) (PS pl) = true -> pl <= ph.
+Proof. exact cdevice2_slopes_ordered. Qed.
+
+Theorem C07_idevice_under_its_validators : forall n b cb a bp c p, List.length b = n ->
+  (forall i, (i < n)%nat -> lo b i <= hi b i) ->
+  IDevice_a_accepts (A:=R) n a = true -> IDevice_c_accepts (A:=R) n c = true ->
+  (forall i, (i < n)%nat -> exists k, pnth bp i = Rnat k) ->
+  convex_on (in_box_R b) (fun s => leaf_cost (Build_leafdev n b cb (KI a bp c)) s p).
+Proof. exact convex_idevice_validated. Qed.
+
+(* storage: the c2 setter enforces c2 <= c1 whenever c1 > 0 (c1 = 0 < c2 is the open finding), the c1 setter c1 >= c2 *)
+Theorem C07_sdevice_c2_validator : forall c1 c2, SDevice_c2_accepts (A:=R) c1 c2 = true -> 0 < c1 -> 0 <= c2 <= c1.
+Proof. exact sdevice_c2_le_c1. Qed.
+Theorem C07_sdevice_c1_validator : forall c1 c2, SDevice_c1_accepts (A:=R) c2 c1 = true -> 0 <= c2 -> 0 <= c2 <= c1 /\ 0 <= c1.
+Proof. exact sdevice_c1_ge_c2. Qed.
+
+Theorem C07_tdevice_constructor_guards : forall n s e tr text c,
+  TDevice_init_accepts (A:=R) n s e tr text c = true ->
+  List.length text = n /\ (forall i, (i < n)%nat -> 0 <= pnth c i) /\ 0 <= s <= 1 /\ e <> 0 /\ 0 <= tr.
+Proof. exact tdevice_init_facts. Qed.
